@@ -97,6 +97,19 @@ add('C14', 'Gallina model of CPython\'s rich-comparison dispatch, the __eq__/__h
     'The model of Python\'s comparison protocol is the trusted part (validated against CPython with ad-hoc classes on every run); foreign partners are assumed not to raise in their own __eq__.',
     'Coq proof over a Gallina model of the comparison protocol + in-Coq evaluation correspondence')
 
+add('C11', 'Gallina model of UpgradedAnnotation.upgrade / source_value / evaluated / annotate on top of the algebra model (Model/Annot.v); 18 theorems in Props/C11.v: every surviving (raw, upgraded) annotation pair of '
+    'merge / embed / mask / forwards / partial results is literally an input pair (one invariant walked through every merger step), hence evaluates in its defining function\'s globals; twin (eager vs postponed) '
+    'invariance through n-ary merge under an injective environment, refuted without it; real twin functions compiled with/without the future import in shared and per-function globals, every operation, '
+    'compared with the model (evaluated inside Coq) and with the generator\'s ground truth.',
+    'twin invariance is proved for merge only (full statement kept); known finding C11:raw-compare listed in known_findings.json.',
+    'Coq proof over a Gallina model + in-Coq evaluation correspondence + metamorphic twin execution')
+add('C16', 'The bodies of cleanup_functools_wrapper.__enter__/__exit__, autoforwards_function and _AsForged.__get__ are REGENERATED from /repo on every run by a fail-closed ast translator (harness/translate_ir.py) into '
+    'an imperative IR with a Gallina big-step interpreter (Model/IR.v); Props/C16.v proves on the regenerated term, for every attribute configuration and every crash point (k-th outside call or attribute read raising), '
+    'that all attributes are restored and the recursion guard is empty (finite domain stated in the theorems, vm_compute lifted by forallb_forall), plus two generic with/try-finally lemmas for all programs; '
+    'the IR semantics is run against the real functions under fault injection (~2k runs) and input purity/aliasing of ~6k algebra cases is decided.',
+    'asynchronous exceptions between two statements are outside the fault model; statements after the with block that fall outside the IR subset are abstracted to one oracle step after a syntactic whitelist check (range recorded in the evidence).',
+    'Coq proof by exhaustive enumeration over a model regenerated from the source + fault injection on the real code', category='proof')
+
 
 def main():
     props = [json.loads(l)['id'] for l in open(os.path.join(VERIF, 'properties.jsonl'))]
